@@ -10,7 +10,8 @@ origin (scheme, host, effective port) differs from the original request's origin
 Also generated: inner-agent Deferreds that are fired synchronously, later, already .called with the chain
 waiting on an unfired Deferred, or fired and pause()d (released in request order); a second chain on the same
 agent object reusing the caller's Headers object (state left over; a mutated caller object is only counted);
-a hop failed by the inner agent (only exactly-once firing is judged, what follows is counted).
+two or three chains in flight at once on one agent object with their hops resolved in interleaved order (per-chain
+oracle unchanged); a hop failed by the inner agent (only exactly-once firing is judged, what follows is counted).
 
 Guards (latitude the statement leaves): URIs are compared by components without the fragment and
 with default ports normalised, "" and "/" paths equal; where own resolver and urljoin disagree the
@@ -39,7 +40,8 @@ ASSUMPTIONS = ["trusted base: the 40-line RFC 3986 5.2.2 resolver in this module
 SHARDS = {"quick": 4, "thorough": 16}
 FLOORS = {"chains": 2000, "hops_checked": 3000, "relative_hops_after_first": 300, "cross_origin_requests_checked": 500,
           "sensitive_header_withheld": 200, "limit_failures": 50, "no_location_failures": 30, "method_switch_checked": 100,
-          "chains_with_called_but_unfinished_inner_deferreds": 1000, "agent_reuse_chains": 500, "inner_failure_chains": 100}
+          "chains_with_called_but_unfinished_inner_deferreds": 1000, "agent_reuse_chains": 500, "inner_failure_chains": 100,
+          "interleaved_chains_on_one_agent": 1000}
 READY = True
 
 REDIRECTS = (301, 302, 303, 307, 308)
@@ -339,6 +341,103 @@ def execute(case, shared=None):
     return recorded, result, raised, responses
 
 
+def execute_interleaved(cases, rng):
+    """Several chains in flight at once on ONE agent object; the scheduler fires the outstanding inner Deferreds in
+    a random interleaved order.  An inner request belongs to the chain whose outer request() call or whose inner
+    Deferred is being run at that moment.  -> [(recorded, result, raised, responses)] per chain."""
+    from twisted.internet.defer import Deferred, succeed
+    from twisted.python.failure import Failure
+    from twisted.web import client
+    from twisted.web.http_headers import Headers
+
+    st = [{"script": [(c, l) for c, l in case["chain"]] + [(case["final"], None)], "recorded": [], "responses": [], "result": [], "raised": None}
+          for case in cases]
+    pending = []
+    cur = [0]
+
+    def answer(method, uri, headers, bodyProducer):
+        ci = cur[0]
+        c, case = st[ci], cases[ci]
+        k = len(c["recorded"])
+        c["recorded"].append({"method": method, "uri": uri, "headers": None if headers is None else
+                              [(n, list(v)) for n, v in headers.getAllRawHeaders()], "bodyProducer": bodyProducer is not None})
+        code, loc = c["script"][k] if k < len(c["script"]) else (200, None)
+        h = Headers()
+        if loc is not None:
+            h.addRawHeader(b"location", loc.encode("latin-1"))
+        resp = FakeResponse(code, h, k, FakeRequest(method, uri, headers))
+        c["responses"].append(resp)
+        kind = case["dkinds"][k] if k < len(case["dkinds"]) else "later"
+        if kind == "sync" and k > 0:
+            return succeed(resp)
+        if kind == "called-waiting":
+            inner = Deferred()
+            d = succeed(None)
+            d.addCallback(lambda _: inner)
+            pending.append((ci, lambda: inner.callback(resp)))
+            return d
+        if kind == "fired-paused":
+            d = succeed(resp)
+            d.pause()
+            pending.append((ci, d.unpause))
+            return d
+        d = Deferred()
+        pending.append((ci, lambda: d.callback(resp)))
+        return d
+
+    class Inner:
+        def request(self, method, uri, headers=None, bodyProducer=None):
+            return answer(method, uri, headers, bodyProducer)
+
+    c0 = cases[0]
+    cls = client.RedirectAgent if c0["agent"] == "strict" else client.BrowserLikeRedirectAgent
+    ag = cls(Inner(), redirectLimit=c0["limit"], sensitiveHeaderNames=[x.encode() for x in c0["configured"]])
+    for ci, case in enumerate(cases):
+        headers = None
+        if case["headers"] is not None:
+            headers = Headers()
+            for n, v in case["headers"]:
+                headers.addRawHeader(n.encode(), v.encode())
+        cur[0] = ci
+        try:
+            ag.request(case["method"].encode(), case["start"].encode("latin-1"), headers, None).addBoth(st[ci]["result"].append)
+        except Exception as e:
+            st[ci]["raised"] = "%s: %s" % (type(e).__name__, e)
+    steps = 0
+    while pending and steps < 200:
+        ci, rel = pending.pop(rng.randrange(len(pending)))
+        cur[0] = ci
+        try:
+            rel()
+        except Exception as e:
+            st[ci]["raised"] = st[ci]["raised"] or "%s: %s" % (type(e).__name__, e)
+        steps += 1
+    return [(c["recorded"], c["result"], c["raised"], c["responses"]) for c in st]
+
+
+def run_interleaved(ctx, rng):
+    n = rng.choice([2, 2, 3])
+    cases = [gen_case(rng) for _ in range(n)]
+    for c in cases:
+        c.update(agent=cases[0]["agent"], limit=cases[0]["limit"], configured=cases[0]["configured"], fail_at=None)
+        c["dkinds"] = [rng.choice(["later", "later", "called-waiting", "fired-paused"])] + [rng.choice(DKINDS) for _ in range(len(c["chain"]) + 2)]
+    if rng.random() < 0.6 and cases[0]["chain"]:
+        # chain 0 carries credentials and is redirected to the origin another chain is talking to meanwhile
+        if cases[0]["headers"] is None or not any(nm.lower() in ("authorization", "cookie") for nm, _ in cases[0]["headers"]):
+            cases[0]["headers"] = [("Authorization", "v-authorization"), ("Cookie", "v-cookie"), ("X-Custom", "v-x")]
+        s1 = urlsplit(cases[1]["start"])
+        code = cases[0]["chain"][0][0] if cases[0]["method"] in ("GET", "HEAD") else 303
+        cases[0]["chain"][0] = (code, "%s://%s/landing" % (s1.scheme, s1.netloc))
+    outs = execute_interleaved(cases, rng)
+    ctx.count("interleaved_groups")
+    for case, o in zip(cases, outs):
+        ctx.count("interleaved_chains_on_one_agent")
+        ctx.evaluated()
+        if case["chain"]:
+            ctx.distinct(("interleaved", case["agent"], case["method"], case["limit"], case["start"], tuple(case["chain"]), case["final"]))
+        check(ctx, dict(case, interleaved_with=[c["start"] for c in cases if c is not case]), *o)
+
+
 def failure_kind(f):
     """Name of the innermost documented error of a failed redirect, or the outer type."""
     try:
@@ -535,6 +634,9 @@ def run(ctx):
                             run_case(ctx, case)
     for i in ctx.cases(20000, 1000000):
         rng = ctx.case_rng(i)
+        if rng.random() < 0.1:
+            run_interleaved(ctx, rng)
+            continue
         case = gen_case(rng)
         run_case(ctx, case, sample=i < 2 * ctx.nshards, second=gen_case(rng) if rng.random() < 0.12 else None)
 
